@@ -1,4 +1,5 @@
 import FlowRecordProofs.Lemmas.Equality
+import FlowRecordProofs.Lemmas.FieldPack
 /-!
 C12 — record equality and hashing obey the value-object contract.
 Property theorems only. Everything is stated for EVERY primitive equality `E` / hash `H` that satisfy CPython's
@@ -195,3 +196,30 @@ example : execs ⟨[cps "x"], []⟩ [.scope [cps "a"] [.observe, .scope [cps "b"
 example : execs ⟨[cps "x"], []⟩ [.scope [cps "a"] [.observe, .scope [cps "b"] [.set [cps "c"], .observe], .observe], .observe]
     = (⟨[cps "x"], [[cps "a"], [cps "c"], [cps "a"], [cps "x"]]⟩, .normal) := by decide
 end C12_nonvacuous
+
+
+/-! ### field values and packed values
+`Record.__eq__` compares PACKED values (`_pack()` of every field). That this is the comparison of the field values
+themselves rests on the field layer being injective: -/
+
+/-- two well-formed typed values of one kind with the same packed form are the same value (so records that differ
+    in a field differ in their packed values, and `C12_eq_iff` speaks about the field values). From
+    `unpackT_packT`: the packed form determines the value. -/
+theorem C12_field_pack_injective (norm : Nat → FlowRecord.FieldPack.Str → FlowRecord.FieldPack.Str)
+    (k : FlowRecord.FieldPack.Kind) (a b : FlowRecord.FieldPack.TVal) (p : FlowRecord.Wire.PV)
+    (ha : FlowRecord.FieldPack.WFT norm k a) (hb : FlowRecord.FieldPack.WFT norm k b)
+    (hpa : FlowRecord.FieldPack.packT k a = some p) (hpb : FlowRecord.FieldPack.packT k b = some p) : a = b := by
+  have h1 := FlowRecord.FieldPack.unpackT_packT norm k a p ha hpa
+  have h2 := FlowRecord.FieldPack.unpackT_packT norm k b p hb hpb
+  rw [h1] at h2
+  exact Option.some.inj h2
+
+/-- Recorded finding (ip family): the well-formedness hypothesis is needed - 1.2.3.4 and ::102:304 have the same
+    packed form, so records holding them compare equal. An IPv4-mapped IPv6 address and the IPv4 address it embeds
+    do NOT: they pack to different integers. -/
+theorem C12_ip_family_counterexample :
+    FlowRecord.FieldPack.packT .ip (.ip 4 16909060) = FlowRecord.FieldPack.packT .ip (.ip 6 16909060) ∧
+    FlowRecord.FieldPack.packT .ip (.ip 6 281470849515521) ≠ FlowRecord.FieldPack.packT .ip (.ip 4 167772161) := by
+  constructor
+  · rfl
+  · simp [FlowRecord.FieldPack.packT]
